@@ -551,6 +551,18 @@ pub fn gen_script(r: &mut Rng, flavor: &str) -> String {
     if flavor == "C09" && r.coin() {
         evs.push("f:in".into());
     }
+    if flavor == "C20" && !silent_start && r.chance(1, 4) {
+        // assigned a piece, then silent; the piece is completed elsewhere between two ticks and another one handed out
+        let (i, l) = (r.below(np as u64) as usize, piece_len(r));
+        let j = (i + 1) % np;
+        evs.push(format!("f:un>I{},{},good", i, l));
+        evs.push(format!("t{}", r.pick(&[120u64, 240, 300])));
+        evs.push(format!("h{}>Q{},{},good", i, j, l));
+        sh = Some(new_shadow(j, l));
+        for _ in 0..4 {
+            evs.push(format!("t{}", r.pick(&[60u64, 120, 121])));
+        }
+    }
     let steps = 3 + r.below(25) as usize;
     for _ in 0..steps {
         let roll = r.below(100);
@@ -579,10 +591,25 @@ pub fn gen_script(r: &mut Rng, flavor: &str) -> String {
                 } else if w(92, 95) {
                     format!("f:cn,{},0,16", r.below(np as u64))
                 } else if w(95, 98) {
-                    // a piece completed on another connection: held back while the peer chokes us, whatever the timer does
-                    format!("h{}>Ig", r.below(np as u64))
-                } else {
+                    // a piece completed on another connection: held back while the peer chokes us, whatever the timer does;
+                    // if it is the piece this connection is fetching, the manager hands out another one - to a peer that
+                    // may have been silent for a long time (its inactivity count is not the manager's business)
+                    match &sh {
+                        Some(cur) if r.chance(2, 3) => {
+                            let idx = cur.idx;
+                            let (i, l) = ((idx + 1 + r.below(np as u64 - 1) as usize) % np, piece_len(r));
+                            sh = Some(new_shadow(i, l));
+                            format!("h{}>Q{},{},good", idx, i, l)
+                        }
+                        _ => format!("h{}>Ig", r.below(np as u64)),
+                    }
+                } else if r.coin() {
                     "f:un>Ig".into()
+                } else {
+                    // the peer unchokes us and is given a piece - and may say nothing more
+                    let (i, l) = (r.below(np as u64) as usize, piece_len(r));
+                    sh = Some(new_shadow(i, l));
+                    format!("f:un>I{},{},good", i, l)
                 }
             }
             "C11" => {
